@@ -12,14 +12,16 @@ from ..seqcheck import new_result
 PID = "C19"
 
 
-def srepr(x, limit=300):
-    """repr() that survives ints beyond the str-conversion limit."""
+def srepr(x, limit=300, _depth=0):
+    """repr() that survives ints beyond the str-conversion limit, cycles and deep nesting."""
     if isinstance(x, int) and not isinstance(x, bool) and abs(x) >= 10 ** 30:
         return f"<int with {x.bit_length()} bits>"
+    if _depth > 6:
+        return "<...>"
     if isinstance(x, dict):
-        return "{" + ", ".join(f"{k!r}: {srepr(v)}" for k, v in x.items()) + "}"
+        return "{" + ", ".join(f"{k!r}: {srepr(v, limit, _depth + 1)}" for k, v in x.items()) + "}"
     if isinstance(x, (tuple, list)):
-        body = ", ".join(srepr(v) for v in x)
+        body = ", ".join(srepr(v, limit, _depth + 1) for v in x)
         return ("(" + body + ")") if isinstance(x, tuple) else ("[" + body + "]")
     try:
         return repr(x)[:limit]
@@ -291,7 +293,14 @@ ARG_SHAPES = [(), (503,), (True,), ("503",), (99,), (600,), (None, 404), (429, 5
 SQL_VALUES = ["absent", None, "", "40001", "40P01", "HYT00", "HYT01", "08S01", "08006", "28000",
               "28P01", "42000", "42P01", "4000", "400010", "99999", "0800", "XX000", 40001, 8,
               10 ** 5000, math.nan, b"40001", ["40001"], "OBJ", True, 0]
-SQL_ARGS = [(), ("[40001] x",), ("40001",), ("x 40001 y",), (40001,), (None,), ("A" * 10000,),
+_CYCLE = []
+_CYCLE.append(_CYCLE)             # a list that contains itself
+_RING = [("x",)]
+_RING.append((_RING,))            # tuple / list cycle
+_DEEP = "leaf"
+for _ in range(6000):             # nesting deeper than the recursion limit
+    _DEEP = [_DEEP]
+SQL_ARGS = [(_CYCLE,), ("msg", _RING), (_DEEP,), (), ("[40001] x",), ("40001",), ("x 40001 y",), (40001,), (None,), ("A" * 10000,),
             ("[HYT00] [08S01]",), ("08S01", "[42000]"), ("no code",), ("[4000]",),
             ("ERROR 28000: denied",), (b"[28000] Connexion refus\xe9e",), (b"\xff\xfe",),
             (bytearray(b"[40001] x"),), (b"[40001] ok",), ("\ud800",)]
